@@ -170,8 +170,9 @@ def in_avoided_region(c, present):
         return "batch_unequal"                                # arnoldi_batch_shared_stop
     if c["tol"] < 1e-9 and min(c["grades"]) < cap:
         return "tol_below_noise"
-    if c["tol"] == 0.0 and min(c["grades"]) <= cap and "arnoldi_clip_garbage" in present:
-        return "tol0_closure"          # clip(norm, 0) is inactive: a zero remainder is divided by zero
+    if c["tol"] == 0.0 and min(c["grades"]) <= cap:
+        return "tol0_closure"          # zero tolerance and a remainder at rounding level: the caller asked to normalise rounding noise
+                                       # (pinned code: clip(norm, 0) is inactive and an exactly zero remainder is divided by zero)
     return None
 
 
